@@ -71,11 +71,16 @@ func (d *baseTypeFieldTextDecoder) Decode(req *protocol.Request, params param.Pa
 		if tagInfo.Skip || tagInfo.Key == jsonTag || tagInfo.Key == fileNameTag {
 			if tagInfo.Key == jsonTag {
 				defaultValue = tagInfo.Default
-				found := checkRequireJSON(req, tagInfo)
-				if found {
+				if tagInfo.Required {
+					if checkRequireJSON(req, tagInfo) {
+						err = nil
+					} else {
+						err = fmt.Errorf("'%s' field is a 'required' parameter, but the request body does not have this parameter '%s'", tagInfo.Value, tagInfo.JSONName)
+					}
+				} else if err != nil && keyExist(req, tagInfo) {
+					// an optional json tag makes up for a missing 'required' value of another
+					// source only if the body really carries the key
 					err = nil
-				} else {
-					err = fmt.Errorf("'%s' field is a 'required' parameter, but the request body does not have this parameter '%s'", tagInfo.Value, tagInfo.JSONName)
 				}
 				if len(tagInfo.Default) != 0 && keyExist(req, tagInfo) {
 					defaultValue = ""
